@@ -96,15 +96,18 @@ func sizeCase(kind string, s txgen.TxSpec, q feegen.Quote, hyp bool) {
 	if q.Complete() {
 		inB, outB := feegen.SumIn(s), feegen.SumOut(s)
 		noWrap := inB.Cmp(feegen.Two64) < 0 && outB.Cmp(feegen.Two64) < 0
+		// outputs within the fee of 2^64: outputs + fee does not fit 64 bits (outside the theorems' no-overflow hypothesis), but
+		// neither total wraps and the two predicates are still decided by the comparison over the integers
+		goHyp := hyp || strings.HasSuffix(kind, "outputs-near-2^64")
 		// IsFeePaidEnough <=> out <= in and in - out >= floor fee on the real size
 		if noWrap && !p3 && enoughErr == nil {
 			quoted := q.Quoted(sz.TotalStdBytes, sz.TotalDataBytes)
 			want := outB.Cmp(inB) <= 0 && new(big.Int).Sub(inB, outB).Cmp(quoted) >= 0
-			if quoted.Cmp(feegen.Two64) < 0 && hyp && enough != want {
+			if quoted.Cmp(feegen.Two64) < 0 && goHyp && enough != want {
 				c.Violate("IsFeePaidEnough/iff", fmt.Sprintf("got %v want %v (in %s out %s quoted %s)", enough, want, inB, outB, quoted), twin)
 			}
 		}
-		if !p5 && estFeesErr == nil && !p2 && est3Err == nil && hyp {
+		if !p5 && estFeesErr == nil && !p2 && est3Err == nil && goHyp {
 			quoted := q.Quoted(est3.TotalStdBytes, est3.TotalDataBytes)
 			if new(big.Int).SetUint64(estFees.TotalFeePaid).Cmp(quoted) != 0 || estFees.TotalFeePaid != estFees.StdFeePaid+estFees.DataFeePaid {
 				c.Violate("EstimateFeesPaid/floor", fmt.Sprintf("total %d std %d data %d, floor fee of (%d,%d) is %s", estFees.TotalFeePaid, estFees.StdFeePaid, estFees.DataFeePaid, est3.TotalStdBytes, est3.TotalDataBytes, quoted), twin)
@@ -305,6 +308,18 @@ func genSizeCases(r *common.Rand, n int) {
 			if len(s.Outs) > 1 && len(s.Outs) < 10 {
 				s.Outs[0].Sats, s.Outs[1].Sats = 1<<64-1, 2
 				kind, hyp = "total-out-wrap", false
+			}
+		case 9, 10: // outputs within a few satoshis of 2^64, inputs small or huge: outputs + fee wraps, the totals do not
+			if len(s.Ins) > 0 && len(s.Outs) > 0 && len(s.Outs) < 10 && q.Complete() {
+				for i := range s.Outs {
+					s.Outs[i].Sats = 0
+				}
+				for i := range s.Ins {
+					s.Ins[i].Sats = 0
+				}
+				s.Outs[0].Sats = 1<<64 - 1 - uint64(r.Intn(40))
+				s.Ins[0].Sats = []uint64{1, 1000, 1<<64 - 1, 1<<64 - 1 - uint64(r.Intn(40))}[r.Intn(4)]
+				kind, hyp = "outputs-near-2^64", false
 			}
 		case 7, 8: // no wrap, but the difference of the totals does not fit a signed 64-bit integer
 			if len(s.Ins) > 0 && len(s.Outs) > 0 {
